@@ -248,6 +248,26 @@ def run(ctx: Ctx) -> int:
     ok = ast.unparse(gen.iter).endswith(".keywords") and isinstance(comp.elt, ast.Attribute) and comp.elt.attr == "arg" and _is_name(comp.elt.value, tv) and any(isinstance(c, ast.Attribute) and c.attr == "arg" for c in gen.ifs)
     ctx.oblige("C13.b", ok, comp, "keyword names given by the call are the `.arg` of its keywords, without the `**` entry (whose arg is None)", fn=fkn)
 
+    # Positions are positions of the CALL; parameters are the callee's WITHOUT its implicit first one.  Two arms of
+    # get_node_component hand back a (class, method name) pair: `self.m(...)` - the instance is implicit, call position n is
+    # parameter n - and `Class.m(self, ...)` - for a plain method the instance is call position 0 and call position n is
+    # parameter n - 1.  One position arithmetic cannot serve both: remove_given_parameters must be told, and must shift.
+    fnc = ctx.func(f"{M}:ParametersVisitor.get_node_component")
+    class_arm = [n for n in ast.walk(fnc) if isinstance(n, ast.If) and any(isinstance(c, ast.Call) and call_leaf(c) == "isclass" for c in ast.walk(n.test)) and any(isinstance(s_, ast.Assign) and "func.attr" in ast.unparse(s_.value) for s_ in n.body)]
+    if class_arm:
+        extra_params = [a.arg for a in fr.args.args[2:] + fr.args.kwonlyargs if a.arg != "removed_params"]
+        shifted = False
+        for n in ast.walk(fr):
+            # a set / list of positions rebuilt with `- 1` (or the first argument sliced off) under one of those parameters
+            if isinstance(n, ast.BinOp) and isinstance(n.op, ast.Sub) and isinstance(n.right, ast.Constant) and n.right.value == 1 or isinstance(n, ast.Subscript) and isinstance(n.slice, ast.Slice) and isinstance(n.slice.lower, ast.Constant) and n.slice.lower.value == 1:
+                at = {x.id for t, pol in guard_atoms(n, stop=fr) for x in ast.walk(t) if isinstance(x, ast.Name)}
+                if at & set(extra_params):
+                    shifted = True
+        sites = [c for f_ in (fa, fm) for c in calls_in(f_) if call_leaf(c) == "remove_given_parameters"]
+        told = bool(extra_params) and all(len(c.args) + len(c.keywords) >= 3 and (len(c.args) > 3 or any(k.arg in extra_params for k in c.keywords)) for c in sites if c in [x for x in calls_in(fa) if call_leaf(x) == "remove_given_parameters"])
+        ok = shifted and told
+        ctx.oblige("C13.b", ok, class_arm[0], "a call through the class (`Class.m(self, ...)`) is told apart from a bound call and its positions are shifted by the explicit instance" if ok else "get_node_component resolves `Class.m(self, ...)` to (Class, 'm') exactly like `self.m(...)`, and remove_given_parameters counts call positions against the callee's parameters without its first one in both cases: in `Base.__init__(self, **kwargs)` the instance argument counts as the callee's first named parameter - `a` of `Base.__init__(self, a=1, b='x')` is not offered although `Child(a=3)` is legal", fn=fnc, construct="explicit instance shifts positions")
+
     # =========================================================== C13.c
     fs = ctx.func(f"{M}:split_args_and_kwargs")
     comps = [s for s in _assigns(fs) if isinstance(s.value, ast.ListComp)]
